@@ -138,6 +138,17 @@ def check_deadline_loop(ctx, R, fn: Fn, label: str, t_expected_text=None, t_expe
     if ok:
         extra_awaits = [s for s in body[iw + 1:] if any(isinstance(x, ast.Await) for x in ast.walk(s))]
         ctx.check(not extra_awaits, R, f"{label}:no-await-after-wait", m, dl.inner, "no suspension between receiving the response and clearing the event (a response arriving meanwhile would be lost)", f"await at line {extra_awaits[0].lineno}" if extra_awaits else "")
+    # every open-ended wait of the monitoring loop runs under the armed deadline (also after a timeout was handled)
+    inside = {id(x) for s in dl.with_stmt.body for x in ast.walk(s)}
+    waiting = ("wait", "sleep", "wait_for", "get", "join", "acquire", "gather")
+    loose = []
+    for x in walk_no_nested(dl.outer if dl.outer is not None else fn.node):
+        if isinstance(x, ast.Await) and id(x) not in inside and isinstance(x.value, ast.Call):
+            d = dotted(x.value.func) or unparse(x.value.func)
+            if d.split(".")[-1] in waiting:
+                loose.append(x)
+    ctx.check(not loose, R, f"{label}:every-wait-under-deadline", m, (loose[0] if loose else dl.with_stmt), "the loop waits (event, sleep, queue) only inside `async with asyncio.timeout(...)`: after a timeout was handled the deadline is armed again at once, without waiting for a first response",
+              "; ".join(f"`{norm_text(x)}` at line {x.lineno} waits with no deadline armed - a console that stays silent is never noticed again" for x in loose))
     return dl
 
 
